@@ -360,7 +360,7 @@ fn rems(m: &mut M, n: u64) {
             for sb in [1.0, -1.0] {
                 for k in ks {
                     for sk in [1.0, -1.0] {
-                        for pert in [0, 1, -1] {
+                        for pert in [0i32, 1, -1, 94, -94, 96, -96, 100, -100] {
                             if !deal.take() {
                                 continue;
                             }
@@ -374,7 +374,10 @@ fn rems(m: &mut M, n: u64) {
                             if pert != 0 {
                                 let t = m.tf(0);
                                 let u = if t.lo() != 0.0 { (next_up_mag(t.lo()) - t.lo()).abs() } else { t.hi().abs() * pow2(-106) };
-                                m.call("arith", "add", "vv", Some(0), &[A::R(0), A::F(pert as f64 * u)]);
+                                // +-1: one unit of the low word; +-94, 96, 100: a relative 2^-94, 2^-96, 2^-100 (around the
+                                // 2^-98 proviso below which an adjacent quotient is tolerated)
+                                let d = if pert.abs() == 1 { pert as f64 * u } else { (pert as f64).signum() * t.hi().abs() * pow2(-(pert.abs() as i32)) };
+                                m.call("arith", "add", "vv", Some(0), &[A::R(0), A::F(d)]);
                             }
                             spi += 1;
                             m.call("arith", "rem", SP_TT[spi % SP_TT.len()], Some(2), &[A::R(0), A::R(1)]);
